@@ -94,6 +94,29 @@ ADDENDA = {
  "C19": " A logical type the primitive does not define (date on long) must be ignored.",
  "C20": " Caller edits below the first field level of a registered record schema must not reach the registry.",
 }
+# Additions of the seventh strengthening round.
+ADDENDA7 = {
+ "C01": " Round 7: a record with fields whose names differ only in case; 1100 allocations of one type in one record.",
+ "C02": " Round 7: two live encoders of one codec with interleaved block writes, each output judged alone; compression names that name no codec (a present avro.codec must name one).",
+ "C03": " Round 7: every triple of sibling fields of one Go type whose schemas differ below the outermost type name; records of zero encoded width (up to 70 000 per block).",
+ "C04": " Round 7: consumption of Read / skip path / Skip at every length 0..1100 and 2^k±1 up to 2^21 for length-prefixed things; projection into banks recycled from a file that had the columns.",
+ "C05": " Round 7: 30 nodes — maps and arrays of 128- and 136-byte elements, nine-entry maps.",
+ "C06": " Round 7: allocation as a scaling law (1/4/16 MiB in one block or metadata value: at most 8x per 4x); valid files with 1–5000 items per record and banks handed back at once; zero-size floods recognised anywhere in a schema.",
+ "C07": " Round 7: bytes taken from the reader after a failing callback (none); the failing record last in a block whose marker is damaged, missing or cut; every ordered triple of six files sharing a record name and a Go type.",
+ "C09": " Round 7: refusal of the 2nd..6th write of a flush's block (success reported => output is the model's); single blocks of 2^14-1 to 2^17+3 records.",
+ "C10": " Round 7: file collections also in size-prefixed blocks / one block per item.",
+ "C11": " Round 7: a read stopped by the callback's error with the record kept; 1–40 elements of 4160 bytes per record.",
+ "C12": " Round 7: method calls on package variables built by a foreign constructor (rand.New, bytes.NewBuffer...) are write accesses for the happens-before check.",
+ "C13": " Round 7: time.Time under plain, object-form and unknown-annotation longs; collections of 4095 to 70 000 items.",
+ "C14": " Round 7: tables of 250–3300 columns (20–300 KB documents), also through a file header; parse(Marshal(s)) equals s also in bare-name/object form per node.",
+ "C15": " Round 7: every field type at three positions of one struct with alternating tags.",
+ "C16": " Round 7: 14 fault modes (error values that are a *fs.PathError or wrap another error); after a transient failure a second failure with a different value.",
+ "C17": " Round 7: selection also behind three pointer fields of one record and inside the null.* wrappers.",
+ "C19": " Round 7: every triple of the seven units as sibling fields of one record.",
+ "C20": " Round 7: the never-registered controls have registered namesakes (same reflect.Type.String()).",
+}
+for _k, _v in ADDENDA7.items():
+    ADDENDA[_k] = ADDENDA.get(_k, "") + _v
 for _k, _v in ADDENDA.items():
     e = CHECKS[_k]
     CHECKS[_k] = (e[0], e[1], e[2], e[3] + _v, e[4], e[5])
